@@ -407,6 +407,127 @@ theorem lookup_buildEnv_base (srv : Server) (r : Req) (rule : Rule) (fpath : Byt
   · rfl
   · exact lookup_setVar_ne _ _ _ hpt _
 
+/-! #### which names can occur in the environment -/
+
+def keysOf (e : List (Bytes × Bytes)) : List Bytes := e.map (·.1)
+
+theorem keys_setVar (k v : Bytes) : ∀ (e : List (Bytes × Bytes)) (x : Bytes),
+    x ∈ keysOf (setVar k v e) → x = k ∨ x ∈ keysOf e := by
+  intro e
+  induction e with
+  | nil => intro x hx; simp [setVar, keysOf] at hx; exact Or.inl hx
+  | cons y ys ih =>
+    intro x hx
+    obtain ⟨k', v'⟩ := y
+    unfold setVar at hx
+    by_cases h : (k == k') = true
+    · simp only [h, if_true, keysOf, List.map_cons, List.mem_cons] at hx
+      rcases hx with hx | hx
+      · exact Or.inl hx
+      · exact Or.inr (by simp only [keysOf, List.map_cons, List.mem_cons]; exact Or.inr hx)
+    · rw [if_neg h] at hx
+      simp only [keysOf, List.map_cons, List.mem_cons] at hx
+      rcases hx with hx | hx
+      · exact Or.inr (by simp only [keysOf, List.map_cons, List.mem_cons]; exact Or.inl hx)
+      · rcases ih x hx with h1 | h1
+        · exact Or.inl h1
+        · exact Or.inr (by simp only [keysOf, List.map_cons, List.mem_cons]; exact Or.inr h1)
+
+theorem keys_foldl {α : Type} (key : α → Bytes) (val : α → Bytes) :
+    ∀ (l : List α) (e : List (Bytes × Bytes)) (x : Bytes),
+      x ∈ keysOf (l.foldl (fun e a => setVar (key a) (val a) e) e) → x ∈ l.map key ∨ x ∈ keysOf e := by
+  intro l
+  induction l with
+  | nil => intro e x hx; exact Or.inr hx
+  | cons a rest ih =>
+    intro e x hx
+    simp only [List.foldl_cons] at hx
+    rcases ih _ x hx with h | h
+    · exact Or.inl (List.mem_cons_of_mem _ h)
+    · rcases keys_setVar _ _ _ x h with h1 | h1
+      · exact Or.inl (by simp [h1])
+      · exact Or.inr h1
+
+theorem keys_methodEnv (r : Req) (env : List (Bytes × Bytes)) (x : Bytes)
+    (hx : x ∈ keysOf (methodEnv r env)) : x ∈ methodKeys ∨ x ∈ keysOf env := by
+  unfold methodEnv at hx
+  simp only at hx
+  have three : ∀ (a b : Bytes) (va vb : Bytes) (e : List (Bytes × Bytes)), a ∈ methodKeys → b ∈ methodKeys →
+      x ∈ keysOf (setVar a va (setVar b vb e)) → x ∈ methodKeys ∨ x ∈ keysOf e := by
+    intro a b va vb e ha hb h
+    rcases keys_setVar _ _ _ x h with h1 | h1
+    · exact Or.inl (h1 ▸ ha)
+    · rcases keys_setVar _ _ _ x h1 with h2 | h2
+      · exact Or.inl (h2 ▸ hb)
+      · exact Or.inr h2
+  split at hx
+  · exact three _ _ _ _ _ (by decide) (by decide) hx
+  · split at hx
+    · exact three _ _ _ _ _ (by decide) (by decide) hx
+    · rcases keys_setVar _ _ _ x hx with h1 | h1
+      · exact Or.inl (h1 ▸ (by decide))
+      · exact three _ _ _ _ _ (by decide) (by decide) h1
+
+/-- the names of the map literal of `buildEnv` -/
+def baseNames : List Bytes := ["AUTH_TYPE", "CONTENT_LENGTH", "CONTENT_TYPE", "GATEWAY_INTERFACE", "PATH_INFO",
+  "QUERY_STRING", "REMOTE_ADDR", "REMOTE_HOST", "REMOTE_PORT", "REMOTE_IDENT", "REMOTE_USER", "REQUEST_METHOD",
+  "REQUEST_SCHEME", "SERVER_NAME", "SERVER_PORT", "SERVER_PROTOCOL", "SERVER_SOFTWARE", "DOCUMENT_ROOT",
+  "DOCUMENT_URI", "HTTP_HOST", "REQUEST_URI", "SCRIPT_FILENAME", "SCRIPT_NAME"].map bytes
+
+theorem keys_baseEnv (srv : Server) (r : Req) (rule : Rule) (fpath : Bytes) (sp : Nat) :
+    keysOf (baseEnv srv r rule fpath sp) = baseNames := by
+  simp [baseEnv, keysOf, baseNames]
+
+/-- of the fixed names only HTTP_HOST lies in the HTTP_ namespace -/
+theorem fixedNames_own : ∀ k ∈ baseNames ++ methodKeys ++ [bytes "PATH_TRANSLATED"],
+    (!hasPrefix k (bytes "HTTP_") || k == bytes "HTTP_HOST") = true := by
+  decide
+
+/-- every variable of the environment `buildEnv` (+ the method adjustments) derives belongs to the
+request: no HTTP_* name but HTTP_HOST, the configured entries and the request's own headers -/
+theorem buildEnv_ownVars (srv : Server) (r : Req) (rule : Rule) (fpath : Bytes) (sp : Nat) :
+    (methodEnv r (headersEnv r (ruleEnv rule (pathTranslatedEnv rule fpath sp (baseEnv srv r rule fpath sp))))).all
+      (fun kv => ownVar r rule kv.1) = true := by
+  rw [List.all_eq_true]
+  intro kv hkv
+  have hk : kv.1 ∈ keysOf (methodEnv r (headersEnv r (ruleEnv rule (pathTranslatedEnv rule fpath sp (baseEnv srv r rule fpath sp))))) :=
+    List.mem_map_of_mem hkv
+  have fixed : kv.1 ∈ baseNames ++ methodKeys ++ [bytes "PATH_TRANSLATED"] → ownVar r rule kv.1 = true := by
+    intro h
+    have := fixedNames_own kv.1 h
+    unfold ownVar
+    simp only [Bool.or_eq_true] at this ⊢
+    rcases this with h1 | h1
+    · exact Or.inl (Or.inl (Or.inl h1))
+    · exact Or.inl (Or.inl (Or.inr h1))
+  rcases keys_methodEnv r _ _ hk with h | h
+  · exact fixed (by simp only [List.mem_append]; exact Or.inl (Or.inr h))
+  · unfold headersEnv at h
+    rcases keys_foldl (fun h : Bytes × List Bytes => envName h.1) (fun h => joinComma h.2) _ _ _ h with h1 | h1
+    · unfold ownVar
+      simp only [List.mem_map] at h1
+      obtain ⟨hd, hmem, he⟩ := h1
+      have : r.headers.any (fun h => envName h.1 == kv.1) = true :=
+        List.any_eq_true.mpr ⟨hd, hmem, by simp [he]⟩
+      simp [this]
+    · unfold ruleEnv at h1
+      rcases keys_foldl (fun kv : Bytes × Bytes => kv.1) (fun kv => kv.2) _ _ _ h1 with h2 | h2
+      · unfold ownVar
+        simp only [List.mem_map] at h2
+        obtain ⟨e, hmem, he⟩ := h2
+        have : rule.env.any (fun x => x.1 == kv.1) = true :=
+          List.any_eq_true.mpr ⟨e, hmem, by simp [he]⟩
+        simp [this]
+      · unfold pathTranslatedEnv at h2
+        simp only at h2
+        split at h2
+        · rw [keys_baseEnv] at h2
+          exact fixed (by simp only [List.mem_append]; exact Or.inl (Or.inl h2))
+        · rcases keys_setVar _ _ _ _ h2 with h3 | h3
+          · exact fixed (by simp [h3])
+          · rw [keys_baseEnv] at h3
+            exact fixed (by simp only [List.mem_append]; exact Or.inl (Or.inl h3))
+
 theorem noCollisions_parts {r : Req} {rule : Rule} (h : noCollisions r rule = true) :
     distinct (r.headers.map (fun h => envName h.1)) = true ∧
     (∀ kv ∈ rule.env, kv.1 ∉ r.headers.map (fun h => envName h.1)) ∧
@@ -462,7 +583,9 @@ theorem envVerdict_buildEnv (cs : Bool) (srv : Server) (r : Req) (rule : Rule) (
           unfold ruleEnv
           rw [lookup_foldl_mem (fun kv : Bytes × Bytes => kv.1) (fun kv => kv.2) rule.env _ hd2 kv hkv]
           simp
-      simp only [hB, hC, Bool.not_true, Bool.false_eq_true, if_false]
+      have hO : env.all (fun kv => ownVar r rule kv.1) = true := by
+        rw [← hb]; exact buildEnv_ownVars srv r rule fpath sp
+      simp only [hB, hC, hO, Bool.not_true, Bool.false_eq_true, if_false]
       -- (d) the split
       have hdoc : lookup env (bytes "DOCUMENT_URI") = some (fpath.take (sp + rule.split.length)) := by
         rw [← hb, lookup_buildEnv_base srv r rule fpath sp _ (by decide) (by decide) (by decide) (by decide)
